@@ -22,6 +22,7 @@
 #include <ksi/signature_builder.h>
 #include <ksi/signature_helper.h>
 #include <stdarg.h>
+#include <time.h>
 #include <dirent.h>
 #include <sys/stat.h>
 
@@ -31,6 +32,17 @@ static const char *EPNAME[EP_N] = {"sigparse-empty", "sigparse", "aggrpdu-v1", "
                                    "tlv", "ftlv", "tlvelem", "tlvelem-expand", "pubstring", "uri", "hashname"};
 #define REFKEY "key-c12"
 #define REFLOGIN "user-c12"
+
+/* ------------------------------------------------------------------ deadline
+ * (the shared runner tests its deadline only at enumeration indices that are multiples of 16, i.e. in shard 0 of 16;
+ * the driver therefore stops enumerating by itself and marks the run as not exhaustive) */
+static double g_stop_at;
+static double mono(void) { struct timespec ts; clock_gettime(CLOCK_MONOTONIC, &ts); return (double)ts.tv_sec + (double)ts.tv_nsec * 1e-9; }
+static int time_over(void) {
+	if (g_stop_at <= 0 || mono() < g_stop_at) return 0;
+	vf_inexhaustive("deadline reached: the remaining cases were not enumerated");
+	return 1;
+}
 
 /* ------------------------------------------------------------------ per case statistics */
 static long st_calls, st_ok[EP_N], st_err[EP_N], st_follow, st_inputs;
@@ -594,35 +606,42 @@ static void pubfile_followups(KSI_PublicationsFile *pf) {
 }
 
 /* ------------------------------------------------------------------ follow-ups: raw TLV readers */
-static void tlv_expand(KSI_TLV *t, int depth) {
+static int tlv_expand(KSI_TLV *t, int depth) {
 	KSI_LIST(KSI_TLV) *l = NULL;
 	size_t i;
 	int r;
-	if (depth > 16) return;
+	if (depth > 16) return 0;
 	CALL(); r = KSI_TLV_getNestedList(t, &l); NOTE(r);
-	if (r != KSI_OK || l == NULL) return;
+	if (r != KSI_OK || l == NULL) return 0;
 	for (i = 0; i < KSI_TLVList_length(l); i++) { KSI_TLV *c = NULL; KSI_TLVList_elementAt(l, i, &c); if (c) tlv_expand(c, depth + 1); }
+	return 1;
 }
-static void tlv_followups(KSI_TLV *t) {
+static void tlv_followups(KSI_TLV *t, size_t input_len) {
 	KSI_TLV *cl = NULL;
 	unsigned char *raw = NULL;
 	const unsigned char *rv = NULL;
 	size_t rl = 0;
-	int r;
+	int r, expanded;
 	st_follow++;
 	NOTE(KSI_TLV_getTag(t)); NOTE(KSI_TLV_isNonCritical(t)); NOTE(KSI_TLV_isForward(t));
 	if (KSI_TLV_getRawValue(t, &rv, &rl) == KSI_OK && rv != NULL) g_sink += (size_t)vf_fnv(rv, rl, 0);
-	TOSTR("KSI_TLV_toString", KSI_TLV_toString(t, b, l));
+	/* rendering of the raw element: all buffer sizes (one size for very large elements: the rendering cost is proportional to the element) */
+	if (input_len <= 4096) TOSTR("KSI_TLV_toString", KSI_TLV_toString(t, b, l));
+	else { char *b = (char *)malloc(1500); memset(b, 'x', 1500); CALL(); if (KSI_TLV_toString(t, b, 1500) == b) { if (memchr(b, 0, 1500) == NULL) fail("tostring-unterminated", "KSI_TLV_toString: no terminator within the 1500 byte buffer"); else g_sink += strlen(b); } free(b); }
 	CALL(); r = KSI_TLV_clone(t, &cl); NOTE(r);
-	tlv_expand(t, 0);
-	TOSTR("KSI_TLV_toString", KSI_TLV_toString(t, b, l));
+	expanded = tlv_expand(t, 0);
+	if (expanded) {
+		/* rendering of the nested form */
+		char *b = (char *)malloc(1500); memset(b, 'x', 1500); CALL();
+		if (KSI_TLV_toString(t, b, 1500) == b) { if (memchr(b, 0, 1500) == NULL) fail("tostring-unterminated", "KSI_TLV_toString: no terminator within the 1500 byte buffer"); else g_sink += strlen(b); }
+		free(b);
+	}
 	CALL(); r = KSI_TLV_serialize(t, &raw, &rl); NOTE(r);
 	if (r == KSI_OK && raw != NULL) g_sink += (size_t)vf_fnv(raw, rl, 0);
 	KSI_free(raw); raw = NULL;
 	if (cl != NULL) {
 		CALL(); r = KSI_TLV_serialize(cl, &raw, &rl); NOTE(r);
 		KSI_free(raw);
-		TOSTR("KSI_TLV_toString", KSI_TLV_toString(cl, b, l));
 	}
 	KSI_TLV_free(cl);
 }
@@ -637,7 +656,7 @@ static void elem_expand(KSI_TlvElement *e, int depth) {
 		KSI_TlvElement *c = NULL;
 		KSI_TlvElementList_elementAt(e->subList, i, &c);
 		if (c == NULL) continue;
-		if (i < 4) {
+		if (i < 4 && depth <= 1) {
 			KSI_Integer *iv = NULL; KSI_OctetString *ov = NULL; KSI_Utf8String *uv = NULL;
 			CALL(); NOTE(KSI_TlvElement_getInteger(e, ctx, c->ftlv.tag, &iv)); KSI_Integer_free(iv);
 			CALL(); NOTE(KSI_TlvElement_getOctetString(e, ctx, c->ftlv.tag, &ov)); oct_touch(ov); KSI_OctetString_free(ov);
@@ -746,7 +765,7 @@ static int run_input(int ep, const unsigned char *d, size_t n, int render_err) {
 			CALL(); res = KSI_TLV_parseBlob(ctx, x.p, n, &t); NOTE(res);
 			if (res == KSI_OK) {
 				if (t == NULL) fail("ok-without-object", "%s returned KSI_OK and no object; input=%s", EPNAME[ep], vf_hex(d, n));
-				else { ok = 1; tlv_followups(t); }
+				else { ok = 1; tlv_followups(t, n); }
 			} else if (render_err) err_render();
 			KSI_TLV_free(t);
 			break;
@@ -931,6 +950,7 @@ typedef struct {
 	int type, quick;
 	size_t base;              /* offset of the first TLV (8 for the publications file magic) */
 	el_t *el; int nel, cap;
+	unsigned char *ishdr;     /* 1 for offsets that belong to a TLV header (or the file magic) */
 } seed_t;
 #define MAXSEEDS 600
 static seed_t SEEDS[MAXSEEDS];
@@ -945,6 +965,7 @@ static void walk(seed_t *s, size_t off, size_t end, int parent, int depth) {
 		if (s->nel == s->cap) { s->cap = s->cap ? s->cap * 2 : 64; s->el = (el_t *)realloc(s->el, sizeof(el_t) * (size_t)s->cap); }
 		me = s->nel++;
 		e = &s->el[me];
+		memset(s->ishdr + off, 1, t.hdr);
 		e->off = off; e->hdr = t.hdr; e->len = t.len; e->parent = parent; e->is16 = t.is16; e->tag = t.tag; e->nc = t.nc; e->fw = t.fw;
 		if (t.len > 0 && depth < 12 && rtlv_count(t.val, t.len) > 0) walk(s, off + t.hdr, off + t.hdr + t.len, me, depth + 1);
 		off += t.hdr + t.len;
@@ -969,6 +990,8 @@ static void add_seed(const char *name, const unsigned char *d, size_t n) {
 		else if (tag == 0x200 || tag == 0x220 || tag == 0x221) s->type = ST_AGGR;
 		else if (tag == 0x300 || tag == 0x320 || tag == 0x321) s->type = ST_EXT;
 	}
+	s->ishdr = (unsigned char *)calloc(n + 1, 1);
+	memset(s->ishdr, 1, s->base);
 	walk(s, s->base, s->n, -1, 0);
 }
 
@@ -1091,12 +1114,17 @@ static void add_ref_seeds(void) {
 			snprintf(nm, sizeof nm, "ref:%s-confreq.v%d", kn, ver); add_seed(nm, b.p, b.n);
 		}
 	}
+	{
+		/* the zero-length imprint at the very end of the buffer, in its smallest form: signature { aggregation chain { input hash, length 0 } } */
+		static const unsigned char Z[] = {0x88, 0x00, 0x00, 0x06, 0x88, 0x01, 0x00, 0x02, 0x05, 0x00};
+		add_seed("ref:sig.zero-length-input-hash", Z, sizeof Z);
+	}
 	vb_free(&b); vb_free(&pl); vb_free(&body);
 }
 
 static const char *QUICK_SEEDS[] = {
 	"ref:sig.tail3.rfc0", "ref:sig.tail2.rfc1", "ref:aggr-resp.v2", "ref:aggr-resp.v1", "ref:ext-resp.v2", "ref:ext-resp.v1", "ref:aggr-error.v2",
-	"ref:ext-conf.v2", "ok-sig-metadata-with-padding.ksig", "rfc3161-sha1-as-input-hash-2017.ksig", "ok_nested-9.tlv",
+	"ref:ext-conf.v2", "ref:sig.zero-length-input-hash", "ok-sig-metadata-with-padding.ksig", "rfc3161-sha1-as-input-hash-2017.ksig", "ok_nested-9.tlv",
 	"publications-one-cert-one-publication-record-with-wrong-hash.tlv", NULL
 };
 
@@ -1134,6 +1162,7 @@ static int seed_eps(const seed_t *s, int *eps) {
 }
 
 /* ------------------------------------------------------------------ (ii) mutation families */
+#define BIG_SEED 8192
 enum { F_ID = 0, F_TRUNC, F_BYTE, F_LEN, F_ZEND, F_N };
 static const char *FNAME[F_N] = {"id", "trunc", "byte", "len", "zend"};
 
@@ -1189,6 +1218,7 @@ static int make_mutant(const seed_t *s, int fam, long idx, vbuf *out) {
 			unsigned char o = s->d[off], v[6];
 			v[0] = 0; v[1] = 0xff; v[2] = (unsigned char)(o ^ 1); v[3] = (unsigned char)(o ^ 0x80); v[4] = (unsigned char)(o + 1); v[5] = (unsigned char)(o - 1);
 			if (v[op] == o) return 0;
+			if (s->n > BIG_SEED && !s->ishdr[off] && op != 2) return 0;   /* large seeds: payload offsets get ^01 only */
 			for (k = 0; k < op; k++) if (v[k] == v[op]) return 0;
 			vb_put(out, s->d, s->n);
 			out->p[off] = v[op];
@@ -1230,21 +1260,22 @@ static int seed_get(batch *b, long i, vbuf *out, int *eps) {
 	return seed_eps(s, eps);
 }
 
-/* items per case: sized so that a case stays in the range of seconds */
+/* items per case: sized so that a case stays in the range of a second or two (ASan build, idle machine) */
 static long chunk_items(const seed_t *s, int fam) {
-	double per_item;   /* rough cost of one mutant through all its entry points, microseconds (ASan build) */
+	double per_item;   /* rough cost of one mutant through all its entry points, microseconds */
 	long c;
 	if (fam == F_ZEND) return 1;
 	switch (s->type) {
-		case ST_SIG: per_item = 400.0 + 14.0 * (double)s->n; break;
-		case ST_AGGR: per_item = 300.0 + 8.0 * (double)s->n; break;
-		case ST_EXT: per_item = 150.0 + 2.0 * (double)s->n; break;
-		case ST_PUBFILE: per_item = 600.0 + 0.6 * (double)s->n; break;
-		default: per_item = 30.0 + 0.6 * (double)s->n; break;
+		case ST_SIG: per_item = 300.0 + 1.8 * (double)s->n; break;
+		case ST_AGGR: per_item = 200.0 + 1.2 * (double)s->n; break;
+		case ST_EXT: per_item = 100.0 + 0.5 * (double)s->n; break;
+		case ST_PUBFILE: per_item = 500.0 + 0.5 * (double)s->n; break;
+		default: per_item = 30.0 + 0.4 * (double)s->n; break;
 	}
-	c = (long)(2.0e6 / per_item);
+	if (fam == F_BYTE && s->n > BIG_SEED) per_item /= 4.0;   /* most indices of the family are skipped for large seeds */
+	c = (long)(1.5e6 / per_item);
 	if (c < 24) c = 24;
-	if (c > 60000) c = 60000;
+	if (c > 100000) c = 100000;
 	return c;
 }
 
@@ -1253,6 +1284,9 @@ static void seed_cases(const seed_t *s, int fam) {
 	int L;
 	for (start = 0; start < total; start += ch) for (L = 0; L <= 1; L++) {
 		batch b;
+		/* debug log level: every family of the quick seeds; for the other seeds every family but the per-offset one */
+		if (L == 1 && fam == F_BYTE && !s->quick) continue;
+		if (time_over()) return;
 		if (!vf_case_begin("m:%s:%s:%ld:L%d", s->name, FNAME[fam], start / ch, L)) continue;
 		memset(&b, 0, sizeof b);
 		b.u = (void *)s; b.a = fam; b.b2 = start; b.count = (start + ch <= total) ? ch : total - start;
@@ -1318,6 +1352,7 @@ static void part_short(void) {
 		}
 		for (b0 = 0; b0 < 256; b0++) {
 			batch b;
+			if (time_over()) return;
 			if (!vf_case_begin("short:%s:full:%02x:L%d", EPNAME[ep], b0, L)) continue;
 			memset(&b, 0, sizeof b);
 			b.a = ep; b.b2 = b0; b.count = big ? 1 + 256 + 65536 : 1 + 256; b.get = full_get; b.render_stride = big ? 61 : 1;
@@ -1327,6 +1362,7 @@ static void part_short(void) {
 		}
 		for (a0 = 0; a0 < 12; a0++) for (a1 = 0; a1 < 12; a1++) {
 			batch b;
+			if (time_over()) return;
 			if (!vf_case_begin("short:%s:struct:%02x%02x:L%d", EPNAME[ep], SA[a0], SA[a1], L)) continue;
 			memset(&b, 0, sizeof b);
 			b.a = ep; b.b2 = a0; b.c = a1; b.count = scount; b.get = struct_get; b.render_stride = big ? 61 : 7;
@@ -1373,6 +1409,7 @@ static int edit_get(batch *b, long i, vbuf *out, int *eps) {
 }
 
 static void text_case(const char *name, int ep, batch *b, int L) {
+	if (time_over()) return;
 	if (!vf_case_begin("text:%s:%s:L%d", EPNAME[ep], name, L)) return;
 	b->a = ep; b->render_stride = 1;
 	stats_reset(); run_batch(b, L);
@@ -1568,5 +1605,12 @@ static void run(void) {
 
 int main(int argc, char **argv) {
 	vf_driver d = {"C12", run};
+	int i, plain = 1;
+	double dl = 0;
+	for (i = 1; i < argc; i++) {
+		if (!strcmp(argv[i], "--deadline") && i + 1 < argc) dl = atof(argv[i + 1]);
+		if (!strcmp(argv[i], "--replay") || !strcmp(argv[i], "--list") || !strcmp(argv[i], "--obs-sample")) plain = 0;
+	}
+	if (plain && dl > 0) g_stop_at = mono() + dl;
 	return vf_main(argc, argv, &d);
 }
